@@ -1,9 +1,9 @@
 package main
 
 import (
-	"google.golang.org/protobuf/encoding/protowire"
 	"bytes"
 	"fmt"
+	"google.golang.org/protobuf/encoding/protowire"
 	"os"
 	"reflect"
 	"strings"
@@ -63,6 +63,38 @@ func mkOrigin(md protoreflect.MessageDescriptor, o origin) (t triple, ok bool) {
 					m.Set(fd, m.NewField(fd))
 				} else {
 					m.Set(fd, sampleValue(fd, 0))
+				}
+			}
+		}
+		// "new+emptied<N>": list / map field N grown through Mutable and emptied again in place (unpopulated by history)
+		if strings.HasPrefix(o.Base, "new+emptied") {
+			var n int
+			fmt.Sscanf(o.Base, "new+emptied%d", &n)
+			fd := md.Fields().ByNumber(protoreflect.FieldNumber(n))
+			if fd == nil || !(fd.IsList() || fd.IsMap()) {
+				return t, false
+			}
+			for _, m := range []protoreflect.Message{t.fast, t.slow, t.dyn} {
+				f := fdOf(m, fd)
+				if fd.IsList() {
+					l := m.Mutable(f).List()
+					for k := 0; k < 2; k++ {
+						if fd.Kind() == protoreflect.MessageKind {
+							l.Append(l.NewElement())
+						} else {
+							l.Append(sampleValue(fd, 0))
+						}
+					}
+					l.Truncate(0)
+				} else {
+					mp := m.Mutable(f).Map()
+					k := enum.ScalarAlphabet(fd.MapKey(), enum.Reduced)[1].MapKey()
+					if fd.MapValue().Kind() == protoreflect.MessageKind {
+						mp.Set(k, mp.NewValue())
+					} else {
+						mp.Set(k, sampleValue(fd.MapValue(), 0))
+					}
+					mp.Clear(k)
 				}
 			}
 		}
@@ -132,6 +164,12 @@ func origins(md protoreflect.MessageDescriptor, maxChain int) []origin {
 				out = append(out, origin{Base: b}, origin{Base: b, Chain: []int32{int32(mfd.Number())}})
 				break
 			}
+		}
+	}
+	// list and map fields that were populated and emptied again in place
+	for i := 0; i < md.Fields().Len(); i++ {
+		if fd := md.Fields().Get(i); fd.IsList() || fd.IsMap() {
+			out = append(out, origin{Base: fmt.Sprintf("new+emptied%d", fd.Number())})
 		}
 	}
 	return out
@@ -226,7 +264,9 @@ var libOps = []libOp{
 		proto.Merge(d, x)
 		return enum.Canon(d.ProtoReflect(), false)
 	}},
-	{"proto.CheckInitialized", func(x proto.Message, e, p func() proto.Message) string { return fmt.Sprint(proto.CheckInitialized(x) != nil) }},
+	{"proto.CheckInitialized", func(x proto.Message, e, p func() proto.Message) string {
+		return fmt.Sprint(proto.CheckInitialized(x) != nil)
+	}},
 	{"protojson.Marshal", func(x proto.Message, e, p func() proto.Message) string {
 		b, err := protojson.Marshal(x)
 		return fmt.Sprintf("%s err=%v", strings.Join(strings.Fields(string(b)), ""), err != nil)
@@ -361,10 +401,18 @@ func runC09Type(h *hz.H, md protoreflect.MessageDescriptor, only *c09case) {
 				report(lop.name, nil, what)
 			}
 		}
-		// writes into read-only values must panic (when both references panic)
-		if base.readOnly && !base.dyn.IsValid() {
+		// writes into read-only values must panic (when both references panic); for a field emptied in place: writes
+		// through the value Get returns for it
+		emptied := 0
+		if strings.HasPrefix(o.Base, "new+emptied") && len(o.Chain) == 0 {
+			fmt.Sscanf(o.Base, "new+emptied%d", &emptied)
+		}
+		if base.readOnly && !base.dyn.IsValid() || emptied != 0 {
 			for i := 0; i < fs.Len(); i++ {
 				fd := fs.Get(i)
+				if emptied != 0 && int(fd.Number()) != emptied {
+					continue
+				}
 				type wop struct {
 					name string
 					f    func(m protoreflect.Message)
@@ -403,6 +451,9 @@ func runC09Type(h *hz.H, md protoreflect.MessageDescriptor, only *c09case) {
 					wops = append(wops, wop{"Set(scalar)", func(m protoreflect.Message) { m.Set(fdOf(m, fd), sampleValue(fd, 0)) }})
 				}
 				for _, w := range wops {
+					if emptied != 0 && !strings.HasPrefix(w.name, "Get.") {
+						continue
+					}
 					t, _ := mkOrigin(md, o)
 					ps := hz.Catch(func() { w.f(t.slow) })
 					pd := hz.Catch(func() { w.f(t.dyn) })
@@ -416,6 +467,9 @@ func runC09Type(h *hz.H, md protoreflect.MessageDescriptor, only *c09case) {
 						report("write:"+w.name, fd, fmt.Sprintf("%s of field %s on the read-only %s (origin %s %v of %s) did not panic (both references panic): the store is silently dropped or lands in shared state", w.name, fd.Name(), cur.FullName(), o.Base, o.Chain, tname))
 					}
 				}
+			}
+			if emptied != 0 {
+				continue
 			}
 			t, _ := mkOrigin(md, o)
 			ps := hz.Catch(func() { t.slow.SetUnknown(protoreflect.RawFields{0xc0, 0x3e, 0x01}) })
